@@ -13,7 +13,8 @@ use s3s::S3;
 use s3s::dto::*;
 use serde_json::json;
 
-const BUCKETS: &[&str] = &["bucket-a", "bucket-b", "bucket-c"];
+// (some names are string prefixes of others: a path check must compare components, not text)
+const BUCKETS: &[&str] = &["bucket-a", "bucket-b", "bucket-c", "bucket", "bucket-ab"];
 
 struct World {
     env: FsEnv,
@@ -430,6 +431,27 @@ fn history(c: &mut Case<'_>) -> CaseResult {
                 }
             }
         }
+        // --- information flow into files: what an operation writes may only come from the buckets it names
+        for (p, how) in changed_paths(&before, &after) {
+            if how == "removed" {
+                continue;
+            }
+            let Ok(data) = std::fs::read(w.env.sandbox.join(&p)) else { continue };
+            if data.len() > 1 << 20 {
+                continue;
+            }
+            let text = String::from_utf8_lossy(&data);
+            for (m, owner) in &w.markers {
+                if text.contains(m.as_str()) && !r.named.contains(owner) {
+                    let sig = match owner.as_str() {
+                        "outside" => format!("escape-root:{}", r.name),
+                        "nobody" => format!("bookkeeping-reachable:{}", r.name),
+                        _ => format!("cross-bucket:{}", r.name),
+                    };
+                    return Err(c.fail(sig, format!("{} addressed to {:?} {how} {} whose content carries data of {owner} ({m})\n{}", r.name, r.named, p.display(), trace.join("\n"))));
+                }
+            }
+        }
         // --- read confinement: only markers of the named buckets (or of this attack) may come back
         for (m, owner) in &w.markers {
             if r.response_text.contains(m.as_str()) && !r.named.contains(owner) {
@@ -452,7 +474,7 @@ fn history(c: &mut Case<'_>) -> CaseResult {
 }
 
 pub fn run(r: &mut Runner) {
-    r.rule = "a store with buckets a, b, c (marked objects and metadata, bookkeeping files, open uploads) inside sandbox/root, sentinel trees sandbox/outside and sandbox/root-evil, a stray file inside the root; histories of 1..12 operations over the backend's methods with traversal-rich keys / copy sources / prefixes / bucket names / upload ids, as typed calls and as raw HTTP with %2e%2e / %2f / %252e spellings; whole-sandbox snapshots before/after every operation with learned file ownership; markers for read confinement. Always non-trivial; distinct by the history.".into();
+    r.rule = "a store with five buckets, two of whose names are string prefixes of others (marked objects and metadata, bookkeeping files, open uploads) inside sandbox/root, sentinel trees sandbox/outside and sandbox/root-evil, a stray file inside the root; histories of 1..12 operations over the backend's methods with traversal-rich keys / copy sources / prefixes / bucket names / upload ids, as typed calls and as raw HTTP with %2e%2e / %2f / %252e spellings; whole-sandbox snapshots before/after every operation with learned file ownership; markers for read confinement (responses) and for information flow (contents of every file an operation creates or changes). Always non-trivial; distinct by the history.".into();
     r.assumptions = vec![
         "file ownership is learned from what benign set-up operations create, not from the backend's naming scheme".into(),
         "an operation may read a bucket it names explicitly as copy source".into(),
